@@ -235,19 +235,19 @@ func (w *world) newNode(orphanCap, badCap int) *node {
 }
 
 // settle waits until the sign-verifier goroutines are idle (they may still be busy when execution of a block
-// failed before the chain service waited for them); purely an observation of channel lengths, see shim.
+// failed before the chain service waited for them); purely an observation of the validator's bookkeeping, see shim.
 func (n *node) settle() {
 	need, pending := chain.VerifC05VerifyState(n.cs)
 	if !need && !n.shifted {
 		return
 	}
-	if need && n.shifted {
-		// a second un-awaited verification: its collector blocks on the full result channel, nothing to observe
-		time.Sleep(8 * time.Millisecond)
-		return
+	limit := 40 // x 50us: a node whose tree collects a pending result before the next request never shows pending=1 here
+	if need {
+		// a started verification was not waited for: its collector ends by putting the result into the channel
+		n.shifted = true
+		limit = 4000
 	}
-	n.shifted = true
-	for i := 0; pending != 1 && i < 4000; i++ {
+	for i := 0; pending != 1 && i < limit; i++ {
 		time.Sleep(50 * time.Microsecond)
 		_, pending = chain.VerifC05VerifyState(n.cs)
 	}
@@ -262,6 +262,9 @@ func (n *node) close() {
 func (n *node) add(b *types.Block) (cls string, msgs string) {
 	n.dels, n.puts, n.syncs, n.notes = nil, nil, nil, nil
 	err := chain.VerifC05AddBlock(n.cs, b, "peer")
+	if err != nil && os.Getenv("VERIF_DEBUG") != "" {
+		fmt.Fprintf(os.Stderr, "add %s/%d: %v\n", tk(b.BlockHash()), b.BlockNo(), err)
+	}
 	n.settle()
 	var re *chain.ErrReorg
 	switch {
@@ -294,11 +297,17 @@ const (
 	kNoSame         // block number = parent's
 	kNoZero         // block number 0
 	nKinds
+	kBadSig kind = 100 // a transaction whose signature does not verify (only in the regression family of C04's stale-result defect)
 )
 
 var kindName = []string{"valid", "badroot", "badtx", "badtxroot", "badrcpt", "cons", "no+2", "no+0", "no=0"}
 
-func (k kind) invalidExec() bool { return k >= kBadRoot && k <= kCons }
+func (k kind) String() string {
+	if k == kBadSig {
+		return "badsig"
+	}
+	return kindName[k]
+}
 
 // mblock: a block plus what the model is told about it
 type mblock struct {
@@ -432,6 +441,15 @@ func (p *producer) make(name string, parent *mblock, ntx int, k kind) *mblock {
 	bs.SetGasPrice(system.GetGasPrice())
 	bs.Receipts().SetHardFork(config.AllEnabledHardforkConfig, bi.No)
 	txs, nonces := p.pickTxs(parent, ntx, bi, k)
+	if k == kBadSig {
+		if len(txs) == 0 {
+			panic("badsig block needs a transaction")
+		}
+		t := proto.Clone(txs[0]).(*types.Tx)
+		t.Body.Sign[9] ^= 0x40
+		t.Hash = t.CalculateTxHash()
+		txs[0] = t
+	}
 	exec := chain.NewTxExecutor(context.Background(), stubCcc{}, nil, bi, contract.ChainService)
 	var ferr error
 	for _, tx := range txs {
@@ -440,7 +458,7 @@ func (p *producer) make(name string, parent *mblock, ntx int, k kind) *mblock {
 		}
 	}
 	if (ferr != nil) != (k == kBadTx) {
-		panic(fmt.Sprintf("producer: block %s kind %s: unexpected execution result %v", name, kindName[k], ferr))
+		panic(fmt.Sprintf("producer: block %s kind %s: unexpected execution result %v", name, k, ferr))
 	}
 	if err := bs.Update(); err != nil {
 		panic(err)
@@ -462,6 +480,8 @@ func (p *producer) make(name string, parent *mblock, ntx int, k kind) *mblock {
 		m.res = nil
 	case kBadRcpt:
 		blk.Header.ReceiptsRootHash = p.rng.Bytes(32)
+		m.res = nil
+	case kBadSig:
 		m.res = nil
 	}
 	// what a peer sends is the protobuf encoding
